@@ -51,6 +51,36 @@ def worker(job):
                 setattr(args, nm, p)
         args.output_orf = case.dir / 'orf_seqs.fasta'
         from moPepGen.cli.call_novel_orf import call_novel_orf_peptide
+        if rng.random() < 0.5:
+            # CANONICAL COLLISIONS: a preliminary run tells which peptides the command reports; a
+            # few of them (a plain one, and the W>F image of a two-tryptophan one in its FIRST
+            # tryptophan) are then made canonical by synthetic proteome entries — they must vanish
+            # from the real output and nothing else may
+            pre = argparse.Namespace(**vars(args))
+            pre.output_path = case.dir / 'pre.fasta'
+            pre.output_orf = None
+            try:
+                with gen_ref.quiet():
+                    call_novel_orf_peptide(pre)
+                got = sorted(gen_ref.read_fasta(pre.output_path).keys())
+            except BaseException as e:   # noqa
+                if isinstance(e, KeyboardInterrupt):
+                    raise
+                got = []
+            picks = []
+            ww = [q for q in got if q.count('W') >= 2]
+            if ww:
+                q = rng.choice(ww)
+                i = q.index('W')
+                picks.append(q[:i] + 'F' + q[i + 1:])
+            if got:
+                picks.append(rng.choice(got))
+            if picks:
+                with open(case.proteome, 'at') as fh:
+                    for n_, q in enumerate(picks):
+                        fh.write(f'>COLLP{n_}|COLLT{n_}|COLLG{n_}|XXX\nMAGGSK{q}\n')
+                out['stats']['canonical_collision_inputs'] = 1
+                out['stats']['canonical_collisions'] = len(picks)
         canon = pipe.canonical_pool(case, **kw)
         status = 'ok'
         try:
